@@ -34,6 +34,12 @@ def run(tier):
                 P.append(progs.stats_program(rng, x, dt, total + rng.choice([0, 1, 7, 123]), nreq=60 if thorough else 36,
                                              first=rng.choice([0, 0, 5, 1000])))
                 x += 1
+    # small ramps on a large offset, for the types whose summaries are 64-bit
+    for dt in ("i32", "u32", "i64", "u64", "f64"):
+        for total in [5000, 60000] + ([200000] if thorough else []):
+            P.append(progs.stats_program(rng, x, dt, total + rng.choice([0, 1, 7]), nreq=60 if thorough else 30,
+                                         first=rng.choice([0, 5]), offset=1500000000))
+            x += 1
     # default geometry (the one test_fsr_f32_statistics uses) for a few types
     for dt in ("f32", "u8", "i16"):
         P.append(progs.stats_program(rng, x, dt, 700000 if dt == "f32" else 300000, geometry=(0, 0, 0, 0), nreq=30))
